@@ -701,6 +701,9 @@ impl Scenario for ListenerCurrentScenario {
 pub struct ListenerNewScenario {
     pub filters: Vec<usize>,
     pub depth: usize,
+    /// listener connections may die by having their task dropped: the broker only notices when
+    /// the fan-out of a bus event reaches them, while other recipients are still to be served
+    pub listener_crash: bool,
 }
 
 impl Scenario for ListenerNewScenario {
@@ -708,7 +711,7 @@ impl Scenario for ListenerNewScenario {
         "listener-new".into()
     }
     fn params(&self) -> serde_json::Value {
-        json!({"filter_indices": self.filters, "depth": self.depth})
+        json!({"filter_indices": self.filters, "depth": self.depth, "listener_crash": self.listener_crash})
     }
     fn prelude(&self) -> Vec<Action> {
         // c0: two listeners, c1: one listener, c2: producer, c3: second producer
@@ -786,6 +789,15 @@ impl Scenario for ListenerNewScenario {
             out.push((Action::DropTransport(p), true));
             if p == 2 {
                 out.push((Action::Kick(p), true));
+            }
+        }
+        if self.listener_crash {
+            for c in [0usize, 1] {
+                if m.conns[c].state == CState::Live {
+                    out.push((Action::DropTask(c), true));
+                } else if m.conns[c].state == CState::Zombie {
+                    out.push((Action::Kick(c), true));
+                }
             }
         }
         let _ = stale;
@@ -1215,6 +1227,15 @@ impl Scenario for AbuseScenario {
             for t in ts {
                 r.apply(&send(v1, call_function_reply(t, 0, payload_for(r.model.minor(v1), 4))))?;
             }
+            // ... and emits an event of each of its services (to V2, and to whatever the abuser
+            // subscribed before it went away, possibly without the broker having noticed yet)
+            let svcs: Vec<U> = r.model.svcs.keys().copied().filter(|s| r.model.svc_owner(s) == Some(v1)).collect();
+            for s in svcs {
+                r.apply(&send(v1, emit_event(s, 1, payload_for(r.model.minor(v1), 7))))?;
+            }
+            if r.model.is_live(v1) {
+                r.apply(&send(v1, sync(904)))?;
+            }
         }
         if r.model.is_live(v2) {
             let chans: Vec<U> = r.model.chans.iter().filter(|(_, c)| chan_end_owner(c.sender) == Some(v2)).map(|(k, _)| *k).collect();
@@ -1242,6 +1263,9 @@ impl Scenario for AbuseScenario {
                 out.push((send(ABUSE_X, mm), true));
             }
             out.push((Action::DropTransport(ABUSE_X), true));
+            // the abuser's connection task may also just be dropped (the broker notices when it
+            // next sends to it: the victims' traffic of the final check does that)
+            out.push((Action::DropTask(ABUSE_X), true));
         }
         out
     }
